@@ -57,6 +57,22 @@ pub fn gen(seed: u64, thorough: bool) -> Plan {
         out.append(&mut block);
         p.steps = out;
         p.cfg.pool = *r.pick(&[1usize, 2, 4]);
+        // a third of the runs keep one builder per index alive across transactions, aborts and failed builds
+        p.cfg.reuse_builder = r.chance(1, 3);
+        if p.cfg.reuse_builder {
+            // the long-lived builder of an index carries the options of that index's first build step
+            p.cfg.builder_opts = (0..p.cfg.indexes.len())
+                .map(|ix| {
+                    p.steps
+                        .iter()
+                        .find_map(|s| match s {
+                            Step::Build { ix: i, n_trees, split_after, mem, .. } if *i == ix => Some((*n_trees, *split_after, *mem)),
+                            _ => None,
+                        })
+                        .unwrap_or((None, None, None))
+                })
+                .collect();
+        }
         p.cfg.map_size = 1usize << 30;
         p.cfg.yield_every = *r.pick(&[1u64, 2, 8]);
         p.params.insert("readers".into(), 1 + r.below(3));
@@ -319,7 +335,72 @@ pub fn run(plan: &Plan, workdir: &Path) -> Outcome {
             }
         }
     }
+    // "an aborted transaction leaves no trace", byte for byte: a quarter of the clean runs that hold an
+    // aborted transaction are executed twice more under a schedule without choices (one task at a time,
+    // smallest key first, no readers, canonical page placement), with and without their aborted
+    // transactions; a build being a function of (database, options, seed), every commit of the two
+    // executions must write the same bytes
+    if out.violation.is_none() && out.unevaluable.is_none() && out.observations.is_empty() && plan.seed % 4 == 0 {
+        if let Some(p2) = without_aborted_txns(plan, plan.steps.len()) {
+            let a = committed_dumps_without_choices(plan, workdir);
+            let b = committed_dumps_without_choices(&p2, workdir);
+            if let (Some(a), Some(b)) = (a, b) {
+                out.stats.probe("abort_differential_byte_comparison");
+                let diff = if a.len() != b.len() {
+                    Some(format!("{} commits with the aborted transactions, {} without", a.len(), b.len()))
+                } else {
+                    a.iter().zip(&b).position(|(x, y)| x != y).map(|i| {
+                        let (x, y) = (&a[i], &b[i]);
+                        let k = x.iter().zip(y.iter()).position(|(p, q)| p != q).map_or(x.len().min(y.len()), |k| k);
+                        format!(
+                            "commit #{i} writes {} entries with the aborted transactions and {} without; first difference at entry {k} (key {})",
+                            x.len(),
+                            y.len(),
+                            x.get(k).or(y.get(k)).map_or(String::new(), |e| crate::util::hex(&e.0))
+                        )
+                    })
+                };
+                if let Some(d) = diff {
+                    out.violation = Some(Violation {
+                        properties: vec!["C08".into()],
+                        kind: "aborted_txn_changed_later_bytes".into(),
+                        step: 0,
+                        detail: format!("the same history executed without scheduling choices, with and without its aborted transactions: {d}"),
+                    });
+                }
+            }
+        }
+    }
     out
+}
+
+/// The dumps written by the commits of `plan` when it runs alone (no readers) under the choice-free
+/// schedule with a logical pool of one and canonical page placement; None if that execution is not clean.
+fn committed_dumps_without_choices(plan: &Plan, workdir: &Path) -> Option<Vec<Dump>> {
+    let mut p = plan.clone();
+    p.cfg.sched = "fifo".into();
+    p.cfg.pool = 1;
+    p.cfg.placement = "dense".into();
+    let ts = Turnstile::new(p.cfg.sched_seed, "fifo", 1);
+    ts.adopt_running(WRITER);
+    let dumps: Arc<Mutex<Vec<Dump>>> = Arc::new(Mutex::new(Vec::new()));
+    let out = {
+        let mut ex = Exec::new(&p, workdir, Some(ts));
+        crate::ctx::set_active(Some(ex.ctx.clone()));
+        let d2 = dumps.clone();
+        ex.on_commit = Some(Box::new(move |d: &Dump, _w: &World, _failed: bool| {
+            d2.lock().unwrap().push(d.clone());
+        }));
+        ex.run()
+    };
+    crate::ctx::set_active(None);
+    crate::turnstile::release_thread();
+    let _ = std::fs::remove_dir_all(workdir);
+    if out.violation.is_some() || out.unevaluable.is_some() || !out.observations.is_empty() {
+        return None;
+    }
+    let v = dumps.lock().unwrap().clone();
+    Some(v)
 }
 
 fn run_once(plan: &Plan, workdir: &Path) -> Outcome {
